@@ -71,7 +71,7 @@ Next ==
                           [] fl = "quant" -> FALSE
                           [] OTHER -> rv.ca # Count(reg.a) \/ rv.cb # Count(reg.b)}
                 \cup {c \in {"C09.query_pure"} : \E i \in DOMAIN e.regs : e.regs[i].obs # e.regs[i].obs2}
-                \cup {c \in {"C09.batch"} : \E i \in DOMAIN e.regs :
+                \cup {c \in {"C09.batch"} : ~("nobatch" \in DOMAIN e /\ e.nobatch) /\ \E i \in DOMAIN e.regs :
                         IF e.tol THEN ~NearList(e.regs[i].obsv, e.regs[i].batchv)
                         ELSE e.regs[i].obs # e.regs[i].batch}
          rej == fl \in {"geo", "harm"} /\ so.tag = "err" /\ so.variant = "NonPositiveValue"
